@@ -65,6 +65,8 @@ func (p *process) Invoke(msgs []Envelope) {
 		// bottom of the function it freezes some tests. Hence, I created a new counter
 		// for bookkeeping.
 		processed = 0
+		// the graceful poison pill the rest of the batch is being drained for.
+		draining *Envelope
 	)
 	defer func() {
 		// If we recovered, we buffer up all the messages that we could not process
@@ -73,6 +75,11 @@ func (p *process) Invoke(msgs []Envelope) {
 			p.mbuffer = make([]Envelope, nmsg-nproc)
 			for i := 0; i < nmsg-nproc; i++ {
 				p.mbuffer[i] = msgs[i+nproc]
+			}
+			// A crash while draining must not lose the pill: it is retried
+			// behind the messages that still need to be drained.
+			if draining != nil {
+				p.mbuffer = append(p.mbuffer, *draining)
 			}
 			p.tryRestart(v)
 		}
@@ -85,10 +92,12 @@ func (p *process) Invoke(msgs []Envelope) {
 			// If we need to gracefuly stop, we process all the messages
 			// from the inbox, otherwise we ignore and cleanup.
 			if pill.graceful {
-				msgsToProcess := msgs[processed:]
-				for _, m := range msgsToProcess {
+				draining = &msgs[i]
+				for _, m := range msgs[i+1:] {
+					nproc++
 					p.invokeMsg(m)
 				}
+				draining = nil
 			}
 			p.cleanup(pill.cancel)
 			return
